@@ -18,6 +18,8 @@ pub struct Workload {
     /// steps already decided (bursts, chains)
     pub queue: std::collections::VecDeque<Step>,
     pub amplified: u32,
+    /// widths the INSERT being driven has seen before (former column counts, stored row widths)
+    pub stale_widths: Vec<usize>,
 }
 
 pub fn draw_cfg(r: &mut Rng, prop: Prop) -> Cfg {
@@ -139,6 +141,7 @@ impl Workload {
             tag: 100_000,
             queue: Default::default(),
             amplified: 0,
+            stale_widths: Vec::new(),
         }
     }
 
@@ -191,10 +194,14 @@ impl Workload {
         if !r.pct(sim.cfg.mismatch_pct) {
             return cols;
         }
-        let w = match r.below(5) {
+        // widths that match something the statement has seen before are the interesting wrong
+        // ones: a former column declaration, the width of a row already stored
+        let stale: Vec<usize> = self.stale_widths.iter().copied().filter(|w| *w != cols).collect();
+        let w = match r.below(7) {
             0 => 0,
             1 => cols.saturating_sub(1),
             2 => cols + 1,
+            3 | 4 if !stale.is_empty() => *r.pick(&stale),
             _ => r.below(8),
         };
         if w == cols {
@@ -220,6 +227,19 @@ impl Workload {
         let log = &sim.model[&h].log;
         let im = ins_model(log);
         let cols = im.cols.len();
+        self.stale_widths.clear();
+        for o in &log.ops {
+            if let Op::Ins(InsOp::Columns(c, _)) = o {
+                self.stale_widths.push(c.len());
+            }
+        }
+        if let InsSrc::Rows(rows) = &im.source {
+            for rw in rows {
+                self.stale_widths.push(rw.len());
+            }
+        }
+        self.stale_widths.sort_unstable();
+        self.stale_widths.dedup();
         let declared = log.ops.iter().any(|o| matches!(o, Op::Ins(InsOp::Columns(..))));
         let has_source = im.source != InsSrc::None;
         let adv = sim.cfg.adversarial_insert;
@@ -246,8 +266,18 @@ impl Workload {
                 // typically switch on
                 let n = if r.pct(8) { r.range(8, 40) } else { r.range(0, 4) };
                 let mut rows = Vec::new();
+                // sometimes the whole batch has one (wrong) width: a batch prepared for a
+                // former declaration of the columns
+                let uniform = if r.pct(sim.cfg.mismatch_pct / 3) {
+                    let w = self.row_width(r, sim, cols);
+                    if w != cols { Some(w) } else { None }
+                } else {
+                    None
+                };
                 for _ in 0..n {
-                    let w = if r.pct(sim.cfg.mismatch_pct / 2) {
+                    let w = if let Some(u) = uniform {
+                        u
+                    } else if r.pct(sim.cfg.mismatch_pct / 2) {
                         self.row_width(r, sim, cols)
                     } else {
                         cols
